@@ -1,6 +1,6 @@
 #!/usr/bin/env python3
 """
-tools/mutants.py — apply small hand-written mutants to /repo one at a time, run the pinned suite and
+tools/mutants.py — apply small hand-written mutants to a scratch worktree of /repo one at a time, run the pinned suite and
 the relevant quick checks, revert. Prints a kill table (development aid; not a registered check).
 usage: tools/mutants.py [name-substring]
 """
@@ -9,7 +9,7 @@ import os
 import subprocess
 import sys
 
-REPO = "/repo"
+REPO = "/tmp/mutants_wt"   # a scratch worktree of /repo HEAD (created / removed by main); /repo itself is not touched
 VERIF = os.path.dirname(os.path.dirname(os.path.abspath(__file__)))
 
 # (name, file, old, new, checks that should notice)
@@ -78,6 +78,7 @@ def main():
     flt = sys.argv[1] if len(sys.argv) > 1 else ""
     flts = flt.split(",") if flt else []
     rows = []
+    sh(f"git -C /repo worktree remove --force {REPO} 2>/dev/null; git -C /repo worktree add -q --detach {REPO} HEAD", cwd="/")
     for name, f, old, new, checks in MUTANTS:
         if flts and not any(f in name for f in flts):
             continue
@@ -96,7 +97,7 @@ def main():
             res = []
             for c in checks:
                 try:
-                    rc, out = sh(f"./check {c} --seed 1", cwd=VERIF, timeout=600)
+                    rc, out = sh(f"VERIF_REPO={REPO} ./check {c} --seed 1 --no-lean", cwd=VERIF, timeout=900)
                 except subprocess.TimeoutExpired:
                     out = "VIOLATION timeout"
                 line = [l for l in out.split("\n") if l.startswith("VIOLATION")]
@@ -106,7 +107,7 @@ def main():
         finally:
             open(path, "w").write(src)
         print(rows[-1], flush=True)
-    sh("git checkout -- .", cwd=REPO)
+    sh(f"git -C /repo worktree remove --force {REPO}", cwd="/")
     json.dump(rows, open(os.path.join(VERIF, "tools", "mutants_last.json"), "w"), indent=1)
 
 
